@@ -193,6 +193,31 @@ namespace
                                     std::move(w));
             return Rest::Route::Result::Ok;
         });
+        // /slow/:ms - answered with send() from a thread of its own after <ms> milliseconds; the client may be gone by then
+        Rest::Routes::Get(*r, "/slow/:ms", [](const Rest::Request& req, Http::ResponseWriter w) {
+            auto tag         = req.headers().tryGetRaw("X-Tag");
+            std::string body = (tag ? tag->value() : "?") + "|late answer|";
+            int ms           = atoi(req.param(":ms").as<std::string>().c_str());
+            std::lock_guard<std::mutex> g(g_async.m);
+            if (g_async.closed)
+            {
+                w.send(Http::Code::Ok, body);
+                return Rest::Route::Result::Ok;
+            }
+            g_async.th.emplace_back([body, ms](Http::ResponseWriter wr) {
+                net::sleep_ms(ms);
+                try
+                {
+                    wr.send(Http::Code::Ok, body);
+                }
+                catch (const std::exception&)
+                {
+                    // the peer is gone: refusing is the expected outcome
+                }
+            },
+                                    std::move(w));
+            return Rest::Route::Result::Ok;
+        });
         return r;
     }
 
@@ -623,6 +648,61 @@ namespace verif
                 else
                     ::close(fd);
             });
+        // In a third of the cases (derived, no choice consumed): while the clients are served, a client asks for an
+        // answer that comes 40 ms later from another thread and goes away at once; new connections made right
+        // after that (they are given the descriptor numbers that have just become free) must not receive
+        // anything they did not ask for, and their own request must get exactly its own answer.
+        bool abandoners = (total + size_t(clients)) % 3 == 0;
+        std::thread bystanders;
+        if (abandoners)
+        {
+            rep.label("late-answer-for-a-departed-client-while-new-connections-arrive");
+            bystanders = std::thread([&] {
+                for (int round = 0; round < 3 && !stop_clients; ++round)
+                {
+                    std::string atag = "k" + std::to_string(case_no) + "gone" + std::to_string(round);
+                    int a            = net::connect_loopback(port);
+                    if (a < 0)
+                        return;
+                    net::send_all(a, "GET /slow/40 HTTP/1.1\r\nHost: x\r\nX-Tag: " + atag + "\r\n\r\n");
+                    net::sleep_ms(8); // the request reaches its handler
+                    ::close(a);
+                    net::sleep_ms(12); // the worker sees the disconnect and closes its end
+                    int b[3];
+                    for (int& fd : b)
+                        fd = net::connect_loopback(port);
+                    double until = net::now_s() + 0.12;
+                    for (int k = 0; k < 3; ++k)
+                    {
+                        if (b[k] < 0)
+                            continue;
+                        std::string got;
+                        int left = int((until - net::now_s()) * 1000);
+                        int r    = net::read_some(b[k], got, left > 1 ? left : 1);
+                        if (r > 0 && !stop_clients)
+                            fail("C09/response-without-request", cfg + ": a connection that has not sent anything received " + std::to_string(got.size()) + " bytes: " + printable(got, 100)
+                                     + " (a client that asked for " + atag + " had gone away before that answer was written)");
+                    }
+                    for (int k = 0; k < 3; ++k)
+                    {
+                        if (b[k] < 0)
+                            continue;
+                        std::string btag = "k" + std::to_string(case_no) + "by" + std::to_string(round) + "-" + std::to_string(k), carry, err;
+                        net::Message r;
+                        if (!stop_clients && net::send_all(b[k], "GET /item/v7 HTTP/1.1\r\nHost: x\r\nX-Tag: " + btag + "\r\n\r\n"))
+                        {
+                            bool ok = net::read_message(b[k], carry, true, r, 8000, err);
+                            std::string want = btag + "|GET|v7|" + digest("") + "|";
+                            if (!stop_clients && !ok)
+                                fail("C09/timing/no-response", cfg + ": GET /item/v7 [" + btag + "]: " + err);
+                            else if (!stop_clients && (r.status != 200 || r.body != want || !carry.empty()))
+                                fail("C09/response-not-from-this-request", cfg + ": GET /item/v7 [" + btag + "]: status " + std::to_string(r.status) + " body \"" + printable(r.body, 80) + "\" expected \"" + want + "\" (+" + std::to_string(carry.size()) + " further bytes)");
+                        }
+                        ::close(b[k]);
+                    }
+                }
+            });
+        }
         if (shut == 2)
         {
             size_t target = size_t(double(total) * inflight_fraction);
@@ -632,6 +712,8 @@ namespace verif
         else
             for (auto& t : th)
                 t.join();
+        if (bystanders.joinable())
+            bystanders.join();
         // ---- shutdown ---------------------------------------------------------------------------
         monitor_stop = true;
         if (monitor.joinable())
